@@ -23,6 +23,7 @@ import sys
 import ast
 import collections
 import functools
+import threading
 import types
 
 from sigtools import _signatures, _util
@@ -534,10 +535,30 @@ def autoforwards_hint(func, args, kwargs):
         raise UnknownForwards()
 
 
+_analysing = threading.local()
+
+
 def autoforwards_ast(func, func_ast, sig, args=(), kwargs={}):
-    sigs = list(forward_signatures(
-        func, CallListerVisitor(func_ast),
-        args, kwargs, sig))
+    try:
+        active = _analysing.functions
+    except AttributeError:
+        active = _analysing.functions = []
+    # the same function with the same known arguments: func forwards,
+    # directly or through others, to itself
+    def known(val):
+        return None if isinstance(val, Unknown) else id(val)
+    key = (
+        func, tuple(known(arg) for arg in args),
+        tuple(sorted((name, known(val)) for name, val in kwargs.items())))
+    if any(k[0] is func and k[1:] == key[1:] for k in active):
+        raise UnknownForwards('Recursive forwarding')
+    active.append(key)
+    try:
+        sigs = list(forward_signatures(
+            func, CallListerVisitor(func_ast),
+            args, kwargs, sig))
+    finally:
+        active.pop()
     if sigs:
         try:
             return _signatures.merge(*sigs)
